@@ -63,6 +63,12 @@ def macroStep (h : Pipe.Host) (tok : String) : Option Pipe.Host :=
   | ("ok", some k) => (h.step (.ok k)).map (autoStop · fuel)
   | ("failE", some k) => (h.step (.fail k)).map (autoStop · fuel)
   | ("failR", some k) => (h.step (.fail k)).map (autoStop · fuel)
+  -- a failure BEFORE the first round trip (the per-host AuthProvider returns an error in Conn.init): the dial of
+  -- attempt k has returned a socket (`ok` at stage dial), the attempt then fails with that socket and no round trip
+  | ("failA", some k) =>
+      if ((h.pools.flatMap (·.att)).any fun a => a.id = k && a.stage = .dial) then
+        ((h.step (.ok k)).bind (·.step (.fail k))).map (autoStop · fuel)
+      else none
   | ("err", some k) => h.step (.err k)
   | ("pick", none) => if h.cur.isNone then none else h.step .pick
   | ("burst", none) =>   -- several fill() calls at once (32 in the model): all pass the first check, then take the write lock one by one
@@ -270,7 +276,7 @@ def runEvdMacro (x : EvStop.St) : List String → List String
       (C17_ctl_heartbeat_exits_partial: the closer's CAS found it started), nothing left, queries refused
   pipe size=N ks=K auth=A rm=… : act act …
       a conducted schedule of the connect pipeline → the line of states `cur:open:closedconns;…` the model
-      predicts (initial state first); acts: okK failEK failRK errK pick burst up upsN uppN down pclose sclose shold sfin
+      predicts (initial state first); acts: okK failEK failRK failAK errK pick burst up upsN uppN down pclose sclose shold sfin
   pipeobs kind=… size=N maxconns=M orphans=O closedconns=C [hostconns=H] afterclose=J leaked=L stack=… stalled=S [lateadd=A lateopen=K] sched=…
       the monitors of one pipeline scenario → accept | reject:<clause>  (C17_pipe_pool_bound, C17_one_pool_per_host
       [hostconns: open sockets of the host across ALL pool objects at a drained quiescent point], C17_pipe_no_conn_after_close,
